@@ -364,14 +364,15 @@ func GroupByIWithContext[T any, K comparable](iteratee func(ctx context.Context,
 						}
 					},
 					func(ctx context.Context, err error) {
-						destination.ErrorWithContext(ctx, err)
+						// groups first: terminating the destination runs the teardown, which completes them
 						notifyAll(func(o Observer[T]) { o.ErrorWithContext(ctx, err) })
+						destination.ErrorWithContext(ctx, err)
 
 						groups = sync.Map{}
 					},
 					func(ctx context.Context) {
-						destination.CompleteWithContext(ctx)
 						notifyAll(func(o Observer[T]) { o.CompleteWithContext(ctx) })
+						destination.CompleteWithContext(ctx)
 
 						groups = sync.Map{}
 					},
